@@ -115,6 +115,26 @@ pub const CONTEXTS: &[&str] = &[
     "return (function(...) return @ end)(1, nil, 3)",
     "local a = @\nreturn a",
     "local function f(...) local v = @ return v, ... end\nreturn f(5)",
+    "return t[@]",
+    "local r = {}\nr[@] = 5\nreturn r.k, r[1], r.a, r[\"1\"]",
+    "return m[@]",
+    "return ({k = 1, a = 2, [1] = 3, [\"\"] = 4})[@]",
+];
+
+/// expressions whose value is known statically although evaluating them has an effect
+pub const EFFECTFUL_CONSTANTS: &[&str] = &[
+    "({E1()} and \"k\")",
+    "({E1()} and 1)",
+    "({E1()} and nil)",
+    "(not {E1()})",
+    "({E1()} and \"a\" or \"k\")",
+    "(E1() and nil or \"k\")",
+    "((E1() or true) and \"k\")",
+    "(function() E1() return \"k\" end)()",
+    "({E1()} and \"k\") .. \"\"",
+    "#{E1()} == 0",
+    "({[E1()] = 1} and 1)",
+    "(`{E1()}` and \"k\")",
 ];
 
 pub const TWO_HOLE_CONTEXTS: &[&str] = &[
@@ -183,6 +203,9 @@ pub const SCOPE_STATEMENTS: &[&str] = &[
     "for _, a in ipairs({a}) do #B end",
     "for a, b in next, {a, b} do #B end",
     "for a = a or 1, 2 do #B end",
+    "for a = 1, 2, a or 1 do #B end",
+    "for b = 1, 2, b or 1 do #B end",
+    "for a = a or 1, (a or 1) + 1, a or 1 do #B end",
     "for b = 1, a or 1 do #B end",
     "local function a(a) return a end E1(a(3))",
     "local function f(a, b) return function(a) return a, b end end E1(f(1, 2)(3))",
@@ -338,6 +361,93 @@ pub fn family_programs() -> Vec<String> {
             for c in vals {
                 out.push(format!("{}local u1, u2, u3 = {}, {}, {}\nreturn 1\n", PRELUDE, a, b, c));
             }
+        }
+    }
+    out
+}
+
+// ---------------------------------------------------------------------------------------------------
+// chains of branches with constant, unknown, effectful and constant-but-effectful conditions
+
+pub const CHAIN_CONDITIONS: &[&str] = &["true", "false", "nil", "x", "t.z", "E1()", "not {E1()}", "({E1()} and nil)", "1 == 1"];
+
+/// every if statement with up to `k` branches: condition from the menu, block empty or effectful, else absent / empty / effectful
+pub fn if_chain_programs(k: usize) -> Vec<String> {
+    fn chains(k: usize) -> Vec<String> {
+        // returns the `cond then block (elseif cond then block)*` part
+        let mut level: Vec<String> = Vec::new();
+        for c in CHAIN_CONDITIONS {
+            for b in ["", " E1(#)"] {
+                level.push(format!("{} then{}", c, b));
+            }
+        }
+        let mut all = level.clone();
+        let mut cur = level.clone();
+        for _ in 1..k {
+            let mut next = Vec::new();
+            for head in &cur {
+                for tail in &level {
+                    next.push(format!("{} elseif {}", head, tail));
+                }
+            }
+            all.extend(next.iter().cloned());
+            cur = next;
+        }
+        all
+    }
+    let mut out = Vec::new();
+    for chain in chains(k) {
+        for e in ["", " else", " else E1(#)"] {
+            let mut body = format!("if {}{} end", chain, e);
+            // number the effectful blocks so that the executed branch is visible
+            let mut n = 0;
+            while let Some(i) = body.find('#') {
+                n += 1;
+                body.replace_range(i..i + 1, &n.to_string());
+            }
+            out.push(format!("{}{}\nE1(\"after\")\nreturn 1\n", PRELUDE, body));
+        }
+    }
+    out
+}
+
+/// while / repeat loops with the same conditions
+pub fn loop_chain_programs() -> Vec<String> {
+    let mut out = Vec::new();
+    for c in CHAIN_CONDITIONS {
+        for b in ["", "E1(1)", "E1(1) break", "break", "do break end E1(2)", "if x then break end"] {
+            out.push(format!("{}while {} do {} end\nE1(\"after\")\nreturn 1\n", PRELUDE, c, b));
+            out.push(format!("{}repeat {} until {}\nE1(\"after\")\nreturn 1\n", PRELUDE, b.replace("break", "do break end"), c));
+        }
+    }
+    out
+}
+
+/// if-expressions (Luau) with up to `k` elseif branches
+pub fn if_expression_chain_programs(k: usize) -> Vec<String> {
+    let values = ["1", "nil", "false", "E1()"];
+    let mut heads: Vec<String> = Vec::new();
+    for c in CHAIN_CONDITIONS {
+        for v in values {
+            heads.push(format!("{} then {}", c, v));
+        }
+    }
+    let mut chains = heads.clone();
+    let mut cur = heads.clone();
+    for _ in 0..k {
+        let mut next = Vec::new();
+        for h in &cur {
+            for t in &heads {
+                next.push(format!("{} elseif {}", h, t));
+            }
+        }
+        chains.extend(next.iter().cloned());
+        cur = next;
+    }
+    let mut out = Vec::new();
+    for chain in chains {
+        for e in ["2", "nil", "E1(9)"] {
+            out.push(format!("{}local r = if {} else {}\nreturn r\n", PRELUDE, chain, e));
         }
     }
     out
